@@ -87,6 +87,10 @@ structure R where
   progressLW : Nat := 0
   results : List (RObj × RObj × Nat × Nat × Bool) := []  -- (clone, original, rev, id, failed)
   numReconciled : Nat := 0
+  /-- ghost: two queued retries have had the same `retryAt` — container/heap does not
+      order equal keys, so from here on the ORDER of retries (observable through the round
+      size limit and through writes made from inside an Update) is unspecified -/
+  tieSeen : Bool := false
   deriving Inhabited
 
 /-! ### backoff (exponentialBackoff.Duration) -/
@@ -161,7 +165,8 @@ def R.retryAdd (r : R) (obj : RObj) (rev origRev : Nat) (del : Bool) : R :=
   let n := (match old with | some i => i.numRetries | none => 0) + 1
   let it : Item := { id := obj.id, obj, rev, origRev, delete := del, retryAt := r.now + backoff r.cfg.minB r.cfg.maxB n,
                      numRetries := n, inQueue := true, inRevQueue := true }
-  let r' : R := { r with items := r.items.filter (·.id ≠ obj.id) ++ [it] }
+  let tie := (r.items.filter (fun i => i.inQueue ∧ i.id ≠ obj.id)).any (·.retryAt = it.retryAt)
+  let r' : R := { r with items := r.items.filter (·.id ≠ obj.id) ++ [it], tieSeen := r.tieSeen || tie }
   { r' with timer := if (r'.head.map (·.id)) = some obj.id then newTimer r'.timer r'.head else r'.timer }
 
 /-- retries.Clear -/
